@@ -134,4 +134,42 @@ Section Top.
   Theorem merge_interleaves (a b : list A) ds out rest :
     decide_merge a b ds = Ok (out, rest) -> Merge a b out.
   Proof. apply interleave_sound. Qed.
+
+  (* ---------------------------------------------------------------- completeness (C37) *)
+  Lemma Merge_nil_r_inv (s l : list A) : Merge s [] l -> l = s.
+  Proof.
+    intro H. remember [] as k eqn:E. induction H; try discriminate; auto. f_equal. auto.
+  Qed.
+
+  (* observation of an unordered top-level stream: every pending element can be the next *)
+  Theorem top_order_complete force (a b : list A) x :
+    exists ds, decide_top_order force (a ++ x :: b) ds = Ok ([x], a ++ b, [], true).
+  Proof.
+    exists ((if force then [] else [0]) ++ [length a]). unfold decide_top_order.
+    assert (En : is_nil (a ++ x :: b) = false) by (destruct a; reflexivity). rewrite En.
+    assert (Hi : ask_excl 0 (length (a ++ x :: b)) [length a] = Ok (length a, [])).
+    { apply ask_excl_complete. rewrite app_length. cbn. lia. }
+    destruct force; cbn [app bind ask_bool ask Nat.leb andb Nat.eqb]; rewrite Hi; cbn [bind];
+      rewrite remove_at_complete; reflexivity.
+  Qed.
+
+  (* inline merge_ordered: every order-preserving interleaving is observed *)
+  Lemma interleave_complete : forall (a b out : list A), Merge a b out ->
+    forall f, length a + length b <= f -> exists ds, interleave f a b ds = Ok (out, []).
+  Proof.
+    induction 1 as [|x s k l HM IH|x s k l HM IH]; intros f Hf.
+    - exists []. destruct f; reflexivity.
+    - destruct f as [|f]; [cbn in Hf; lia|]. destruct k as [|y k'].
+      + apply Merge_nil_r_inv in HM. subst l. exists []. cbn. rewrite app_nil_r. reflexivity.
+      + destruct (IH f) as (ds & Hds); [cbn in *; lia|].
+        exists (0 :: ds). cbn [interleave ask_bool ask bind Nat.leb andb Nat.eqb]. rewrite Hds. reflexivity.
+    - destruct f as [|f]; [cbn in Hf; lia|]. destruct s as [|y s'].
+      + apply Merge_nil_l_inv in HM. subst l. exists []. reflexivity.
+      + destruct (IH f) as (ds & Hds); [cbn in *; lia|].
+        exists (1 :: ds). cbn [interleave ask_bool ask bind Nat.leb andb Nat.eqb]. rewrite Hds. reflexivity.
+  Qed.
+
+  Theorem merge_complete (a b out : list A) :
+    Merge a b out -> exists ds, decide_merge a b ds = Ok (out, []).
+  Proof. intro H. apply interleave_complete; auto. Qed.
 End Top.
